@@ -86,6 +86,10 @@ fn run_case(seed: u64, idx: u64, _tier: Tier, out: &mut CaseOut) {
     p.max_depth = 5;
     p.id_permille = 30;
     p.edge_space = rng.chance(1, 2);
+    p.odd_hrefs = rng.chance(1, 3);
+    if rng.chance(1, 4) {
+        p.uni_space_permille = 150;
+    }
     // adjacent words of wide characters (CJK has its own line-break conventions; here a
     // collapsible run is a space whatever it contains)
     if rng.chance(1, 4) {
